@@ -10,6 +10,12 @@ x ALL method chains of length <= 2 (quick) / <= 3 (thorough) over the alphabet
                    where(**kw), where(lambda over a variable that is not in the result); order_by(attr), order_by(desc(attr)),
                    order_by(lambda), order_by(lambda args), sort_by(lambda args), order_by("text"), order_by("desc(text)"),
                    order_by(n), order_by(-n), order_by(lambda: (k1, desc(k2))), order_by(lambda over a hidden variable);
+                   with an AGGREGATE OVER A COLLECTION of an entity result column x (Person.tags, Dept.persons, Tag.persons;
+                   such a step makes Pony rebuild the query from its original tree - LEFT JOIN + GROUP BY - and REPLAY
+                   every recorded filter / where / order_by step): where(lambda: count(x.coll) < c) with an external
+                   parameter, filter("sum(x.coll.attr) >= c") (attribute lifting), filter(lambda x: count(x.coll) < c),
+                   order_by(lambda: desc(count(x.coll))), order_by(lambda x: sum(x.coll.attr)) - on every query whose
+                   result has an entity column, except aggregated queries and queries over a limited subquery;
                    select(x for x in q.limit(l, o)), select(x for x in q.page(p, s)), select(x for x in q[a:b]);
                    select(y for y in E if y in q.limit(l, o)), select(y for y in E if y in q[:k])
   query -> answer: q[a:b], q[a:], q[:b], limit(l), limit(l, o), fetch(l, o), page(p, s), first(), get(), exists(),
@@ -21,7 +27,13 @@ applied to. Length 2: every data set (n = 4, 2, 1, 0), every base, every form. L
 data sets with n <= 3 (3, 2, 1, 0 persons) and the 15 bases that are not one filter / order_by away from another;
 as SECOND step the page(p, s) / q[a:b] spellings of the limited subquery are left out and membership steps are
 taken only after a non-window step and not expanded further; as THIRD method the window spellings q[a:b] and
-limit(l, o) (full grids) stand for q[a:], q[:b], limit(l), fetch, page. Every step is judged against the Python list operation on the ACTUAL full result R of its
+limit(l, o) (full grids) stand for q[a:], q[:b], limit(l), fetch, page.
+REPLAYED PAIRS (every tier, every data set of the tier, every base): after each recorded step s1 (distinct / order_by(None) /
+condition / sort key) every recorded step s2 such that s1 or s2 contains an aggregate over a collection - ALL ordered pairs,
+every form - is applied and judged, followed by the methods q[0:1], limit(1, 1), first(), exists(), count(). REPLAYED TRIPLES (thorough, all five data sets): ALL sequences of three recorded steps of pairwise different
+classes out of {keyword filter, plain condition, condition with an aggregate, sort key with an aggregate} with at least one
+aggregate - every order, every form of each class - judged step by step and followed by the same methods. The model of an
+aggregate condition / sort key is the QX reference evaluator applied to the mirror objects of the row. Every step is judged against the Python list operation on the ACTUAL full result R of its
 predecessor (see _c24_lib); the base result is cross-checked against the QX reference evaluator. An exception
 from Pony is a refusal (counted), except for plain uses directly on a base query, which must be answered.
 
@@ -97,13 +109,12 @@ def steps_for(node, level=1):
               'order_by(n)', 'order_by(-n)', 'order_by(lambda tuple)'): S('order', f)
     if node.hkey is not None and node.src == 'qx': S('order', 'order_by(lambda hidden)')
     tg = L.agg_target(node)
-    if tg is not None:
+    if tg is not None and not node.wrapped:
         # conditions / sort keys with an aggregate over a collection (they make Pony rebuild the query from its
         # original tree - LEFT JOIN + GROUP BY - and replay every recorded filter / where / order_by step)
-        S('cond', 'where(lambda: count(coll) < c)', agg=1); S('cond', 'filter("sum(coll.attr) >= c")', agg=1)
-        S('order', 'order_by(lambda: desc(count(coll)))', agg=1)
-        if tg[0] is not None:
-            S('cond', 'filter(lambda args: count(coll) < c)', agg=1); S('order', 'order_by(lambda args: sum(coll.attr))', agg=1)
+        S('aggcond', 'where(lambda: count(coll) < c)', agg=1); S('aggcond', 'filter("sum(coll.attr) >= c")', agg=1)
+        S('aggcond', 'filter(lambda args: count(coll) < c)', agg=1)
+        S('aggorder', 'order_by(lambda: desc(count(coll)))', agg=1); S('aggorder', 'order_by(lambda args: sum(coll.attr))', agg=1)
     n = len(node.R)
     rng = range(0, n + 2)
     for l in rng:
@@ -137,7 +148,7 @@ def apply_step(node, st):
         else: c.pq = pq.without_distinct(); c.distinct = False
     elif fam == 'unorder':
         c.pq = pq.order_by(None); c.order = []; c.inherited = False; c.dropped = False
-    elif fam == 'cond':
+    elif fam in ('cond', 'aggcond'):
         col, a, op, k = node.cond
         pr = ('col', col, a, op, k)
         res_t = '%s %s ' % (lhs(node, col, a, 'res'), L.OPS[op])
@@ -159,7 +170,7 @@ def apply_step(node, st):
             g = G(node); c.pq = pq.where(eval('lambda: ' + src(node.hcond), g), g, {}); pr = ('x', [node.hcond])
         elif st.get('agg'):
             cnt, sm = L.agg_trees(node)[:2]
-            rcnt = L.agg_trees(node, res=True)[0] if L.agg_target(node)[0] is not None else None
+            rcnt = L.agg_trees(node, res=True)[0]
             bound = cnt.a[1].v
             if form == 'where(lambda: count(coll) < c)':
                 g = G(node, k=bound); c.pq = pq.where(eval('lambda: %s < k' % src(cnt.a[0]), g), g, {}); pr = ('xp', cnt)
@@ -175,7 +186,7 @@ def apply_step(node, st):
         else:
             c.post.append(pr)
             c.B = [r for r in node.B if L.pred_row(node, pr, r) is True]
-    elif fam == 'order':
+    elif fam in ('order', 'aggorder'):
         (c1, a1), (c2, a2) = node.k1, node.k2
         g = G(node)
         if form == 'order_by(attr)':
@@ -305,6 +316,12 @@ def terminals_for(node, level=1):
         for b in rng: T('window', 'q[a:b]', args=[a, b])
     for l in rng:
         for o in rng: T('window', 'limit(l, o)', args=[l, o])
+    if level == 4:
+        # below the second step of a replayed pair (see pairs()): one method per way of reading the result
+        out[:] = [t for t in out if (t['form'], t['args']) in (('q[a:b]', [0, 1]), ('limit(l, o)', [1, 1]))]
+        for f in ('first()', 'exists()'): T(f[:-2] if f.endswith('()') else f, f)
+        T('count', 'count()', args=[None])
+        return out
     if level < 3:
         for a in rng: T('window', 'q[a:]', args=[a]); T('window', 'q[:b]', args=[a]); T('window', 'limit(l)', args=[a])
         for l in rng:
@@ -724,13 +741,59 @@ def explore(w, node, depth):
     for t in terminals_for(node, depth + 1):
         sub.count('evaluations'); sub.count('terminal:' + t['t'])
         record(w, node, t, eval_terminal(node, t))
-    if depth >= w.maxsteps: return
+    if depth >= w.maxsteps:
+        if depth == 1 and node.steps[-1]['f'] in RECORDED: pairs(w, node)
+        return
     if node.steps and node.steps[-1]['f'] == 'in': return      # below a membership query only the terminals (it is a plain entity query)
     for st in steps_for(node, depth + 1):
         sub.count('evaluations'); sub.count('step:' + st['f'])
         c, v = make_child(node, st)
         record(w, node, st, v)
         if c is not None: explore(w, c, depth + 1)
+
+RECORDED = ('distinct', 'unorder', 'cond', 'order', 'aggcond', 'aggorder')      # steps Pony records in the query and replays
+def pairs(w, node):
+    """chains of length 3 that are explored in EVERY tier: node is the result of one recorded step s1; every recorded
+    step s2 such that s1 or s2 contains an aggregate over a collection is applied to it, judged, and followed by the
+    reduced method set terminals_for(level=4)"""
+    sub = w.sub
+    first_agg = bool(node.steps[-1].get('agg'))
+    for st in steps_for(node, 2):
+        if st['f'] not in RECORDED or not (first_agg or st.get('agg')): continue
+        sub.count('evaluations'); sub.count('step:' + st['f']); sub.count('replayed pairs')
+        c, v = make_child(node, st)
+        record(w, node, st, v)
+        if c is None: continue
+        for t in terminals_for(c, 4):
+            sub.count('evaluations'); sub.count('terminal:' + t['t'])
+            record(w, c, t, eval_terminal(c, t))
+
+def step_class(st):
+    if st['f'] in ('aggcond', 'aggorder'): return st['f']
+    if st['f'] == 'cond': return 'kw' if ('**kw' in st['form'] or 'attr=None' in st['form']) else 'plain'
+    return None
+def triples_root(w, ds, base):
+    """thorough tier: chains of three recorded steps of pairwise different classes out of {keyword filter, plain
+    condition, condition with an aggregate, sort key with an aggregate} - every order, every form of each class -
+    each judged step by step; the last node is followed by the reduced method set terminals_for(level=4)"""
+    sub = w.sub
+    def rec(node, used, depth):
+        for st in steps_for(node, 2):
+            k = step_class(st)
+            if k is None or k in used: continue
+            if depth == 3 and not (st.get('agg') or any(u.startswith('agg') for u in used)): continue
+            c, v = make_child(node, st)
+            if depth == 3:
+                sub.count('evaluations'); sub.count('step:' + st['f']); sub.count('replayed triples')
+                record(w, node, st, v)
+            if c is None: continue
+            if depth < 3: rec(c, used + [k], depth + 1)
+            else:
+                for t in terminals_for(c, 4):
+                    sub.count('evaluations'); sub.count('terminal:' + t['t'])
+                    record(w, c, t, eval_terminal(c, t))
+    node = judged_root(ds, base)[0]
+    if L.agg_target(node) is not None: rec(node, [], 1)
 
 def explore_root(w, ds, base, part, parts):
     node, kind = judged_root(ds, base)
@@ -761,7 +824,8 @@ def work(task):
     sub = core.Sub()
     w = Walk(sub, maxsteps)
     base = L.base_by_id(bid)
-    explore_root(w, ds, base, part, parts)
+    if part == 'triples': triples_root(w, ds, base)
+    else: explore_root(w, ds, base, part, parts)
     db = L.get_db(ds)[0]
     qx.clear_caches(db)
     return sub.dump()
@@ -793,6 +857,7 @@ def run(ctx):
             if ctx.quick and ds == 't3': continue
             parts = (12 if ds == 't3' else 3) if deep else (2 if ds == 't4' else 1)
             for part in range(parts): tasks.append((ds, b.id, part, parts, 2 if deep else 1))
+            if not ctx.quick: tasks.append((ds, b.id, 'triples', 1, 3))
     maxsteps = 1 if ctx.quick else 2
     for d in ctx.pmap(work, ctx.shuffled(tasks)): core.absorb(ctx, d)
     merge_signatures(ctx)
@@ -803,8 +868,10 @@ def run(ctx):
     ctx.guard('answers agreeing on a non-empty result', c.get('nontrivial', 0), 20000)
     for fam in ('window', 'first', 'get', 'exists', 'count', 'aggregate', 'group_concat', 'random', 'delete', 'len(q)', 'list(q)'):
         ctx.guard('terminal family executed: ' + fam, c.get('terminal:' + fam, 0), 100)
-    for fam in ('distinct', 'unorder', 'cond', 'order', 'sub', 'in'):
+    for fam in ('distinct', 'unorder', 'cond', 'order', 'sub', 'in', 'aggcond', 'aggorder'):
         ctx.guard('step family executed: ' + fam, c.get('step:' + fam, 0), 50)
+    if ctx.quick or 't4' in L.DATASETS: ctx.guard('pairs of recorded steps with an aggregate over a collection', c.get('replayed pairs', 0), 1000)
+    if not ctx.quick: ctx.guard('triples of recorded steps with an aggregate over a collection', c.get('replayed triples', 0), 1000)
     ctx.cov['chain_length_max'] = maxsteps + 1
     ctx.cov['base_queries'] = [b.id for b in L.bases()]
     ctx.cov['datasets'] = [d for d in L.DATASETS if not (ctx.quick and d == 't3')]
